@@ -41,7 +41,8 @@ fn show_sem(s: Semantics) -> String {
 }
 /// hex (optionally `hex/len` to force a limb count) -> BigInt
 fn parse_big(tok: &str) -> Option<BigInt> {
-    let (h, len) = match tok.split_once('/') {
+    // `hex/len` and `hex~len`: store the value in at least `len` words (leading zero words)
+    let (h, len) = match tok.split_once(|c| c == '/' || c == '~') {
         Some((h, l)) => (h, Some(l.parse::<usize>().ok()?)),
         None => (tok, None),
     };
